@@ -750,22 +750,31 @@ def bindParams : List (String × Ty) → List (VTy × List Bool) → Option BEnv
     else none
   | _, _ => none
 
+/-- the constants of the program as variables of the outermost scope: bound to the encoding of their value in their
+declared type (`none` if a value does not have its type or a type is missing) -/
+def constEnvOf (tys : List (String × Ty)) : List (String × Val) → Option BEnv
+  | [] => some []
+  | (x, v) :: rest =>
+    match tys.find? (·.1 == x), constEnvOf tys rest with
+    | some (_, ty), some cb => if v.hasType ty then some ((x, VTy.ofTy ty, v.encode ty) :: cb) else none
+    | _, _ => none
+
+def constEnv (prog : Prog) : Option BEnv := constEnvOf prog.constTys prog.consts
+
 /-- calls, inlined to depth `n` (Garble has no recursion: the call depth of a checked program is below the number of
-its functions). Programs with constants are outside the fragment. -/
+its functions). The callee sees its parameters and the constants. -/
 def callAt (prog : Prog) : Nat → CallFn
   | 0, _, _ => none
   | n + 1, fn, vs =>
     match prog.fn? fn with
     | none => none
     | some d =>
-      if prog.consts.isEmpty then
-        match bindParams d.params vs with
-        | some callee =>
-          match bitStmts ⟨callAt prog n, prog.enum?⟩ callee d.body with
-          | some (t, bs, p, _) => some (t, bs, p)
-          | none => none
+      match constEnv prog, bindParams d.params vs with
+      | some cb, some callee =>
+        match bitStmts ⟨callAt prog n, prog.enum?⟩ (callee ++ cb) d.body with
+        | some (t, bs, p, _) => some (t, bs, p)
         | none => none
-      else none
+      | _, _ => none
 
 /-- a function body with calls inlined as deep as the program can nest them -/
 def bitBody (prog : Prog) (benv : BEnv) (body : StmtList) : Option (VTy × List Bool × P × BEnv) :=
